@@ -449,7 +449,7 @@ def conditions(tier):
         for rn in range(gmax + 1):
             if tier == "quick" and hn + rn > 5:
                 continue
-            conds.append({"name": f"match_sound/h{hn}r{rn}", "func": "match_sound", "shard": {"hn": hn, "rn": rn}, "timeout": 240 if tier == "quick" else 900})
+            conds.append({"name": f"match_sound/h{hn}r{rn}", "func": "match_sound", "shard": {"hn": hn, "rn": rn}, "timeout": 240 if tier == "quick" else (3000 if hn + rn >= 7 else 900)})
         conds.append({"name": f"match_sound/h{hn}mult", "func": "match_sound", "shard": {"hn": hn, "rn": 1, "mult": gmax}, "timeout": 240 if tier == "quick" else 900})
     for an in range(3):
         for bn in range(3):
